@@ -1,13 +1,21 @@
-(* C04 — "never modifies its argument" on the heap model: refuted for MProcess.calc_proj_eq_constraint_with_var with
-   on_para_eq_constraint=False (witness: 1 qubit, 2 outcomes, var = zeros(32)); proved for flag True and for the fixed code. *)
-From Coq Require Import Arith Bool List Lia QArith Qcanon.
+(* C04 — "never modifies its argument" on the heap model.
+   Faithful model [h_proj_eq_with_var] (the code with repair mprocess-proj-eq-var-mutates-argument):
+     * pure under both flags, all m, n, heaps                                           (proj_eq_with_var_pure)
+     * the returned array holds exactly the functional model mp_proj_eq_var of Model/C04_Proj.v,
+       all m, n > 0, both flags                                                          (proj_eq_with_var_value)
+   Model of the code as it was BEFORE the repair [h_proj_eq_with_var_prefix]: pure for flag True, refuted for flag False
+   (witness: 1 qubit, 2 outcomes, var = zeros(32)). *)
+From Coq Require Import Field Ring Arith Bool List Lia QArith Qcanon.
 From QV.Core Require Import OF QcOF Sums Mat.
 From QV.Model Require Import QObj C04_Proj C04_Heap.
 Import ListNotations.
 
 Section C04HeapProofs.
 Context (F : OF).
+Add Field Ffh : (k_field F).
 Notation heap := (heap F).
+Notation "0" := (c0 F).
+Infix "+" := (cadd F). Infix "-" := (csub F). Infix "/" := (kdiv F).
 
 Lemma isub_other (h : heap) r len v b i : b <> buf r -> isub F h r len v b i = h b i.
 Proof. intros Hb. unfold isub. destruct (Nat.eqb_spec b (buf r)); [contradiction|reflexivity]. Qed.
@@ -21,42 +29,188 @@ Lemma hss_views_buf base m n r : In r (hss_views base m n) -> buf r = buf base.
 Proof. unfold hss_views. intros H. apply in_map_iff in H. destruct H as (x & <- & _). reflexivity. Qed.
 Lemma alloc_other (h : heap) fresh c b i : b <> fresh -> alloc F h fresh c b i = h b i.
 Proof. intros Hb. unfold alloc. destruct (Nat.eqb_spec b fresh); [contradiction|reflexivity]. Qed.
+Lemma alloc_same (h : heap) fresh c i : alloc F h fresh c fresh i = c i.
+Proof. unfold alloc. now rewrite Nat.eqb_refl. Qed.
 
 (* the spread step only writes to the buffers of the views it is given and to the fresh output buffer *)
 Lemma h_spread_other flag fresh2 m n (h1 : heap) hss b i :
   b <> fresh2 -> (forall r, In r hss -> buf r <> b) -> fst (h_spread F flag fresh2 m n h1 hss) b i = h1 b i.
 Proof. intros H2 Hrs. unfold h_spread. cbn [fst]. rewrite alloc_other by exact H2. now apply fold_isub_other. Qed.
 
-(* flag = True: the argument is untouched (all writes go to fresh buffers) *)
-Theorem proj_eq_with_var_true_pure fresh1 fresh2 m n (h : heap) var i :
+(* convert_var_to_hss never writes to the buffer of var *)
+Lemma h_convert_other flag fresh1 m n (h : heap) var h1 hss i :
+  fresh1 <> buf var -> h_convert_var_to_hss F flag fresh1 m n h var = (h1, hss) -> h1 (buf var) i = h (buf var) i.
+Proof. intros H1 E. destruct flag; cbn [h_convert_var_to_hss] in E; inversion E; subst; [|reflexivity].
+  apply alloc_other. now apply not_eq_sym. Qed.
+
+(* ------------------------------------------------------------------ purity of the repaired code, both flags *)
+Theorem proj_eq_with_var_pure flag fresh1 fresh2 fresh3 m n (h : heap) var i :
+  fresh1 <> buf var -> fresh2 <> buf var -> fresh3 <> buf var ->
+  fst (h_proj_eq_with_var F flag fresh1 fresh2 fresh3 m n h var) (buf var) i = h (buf var) i.
+Proof. intros H1 H2 H3. unfold h_proj_eq_with_var.
+  destruct (h_convert_var_to_hss F flag fresh1 m n h var) as [h1 hss] eqn:E.
+  unfold h_deepcopy. rewrite h_spread_other.
+  - rewrite alloc_other by now apply not_eq_sym. now apply (h_convert_other flag fresh1 m n h var h1 hss).
+  - now apply not_eq_sym.
+  - intros r Hr. rewrite (hss_views_buf _ m n r Hr). exact H3. Qed.
+
+(* the code as it was before the repair, flag = True: the argument is untouched (all writes go to fresh buffers) *)
+Theorem proj_eq_with_var_prefix_true_pure fresh1 fresh2 m n (h : heap) var i :
   fresh1 <> buf var -> fresh2 <> buf var ->
-  fst (h_proj_eq_with_var F true fresh1 fresh2 m n h var) (buf var) i = h (buf var) i.
-Proof. intros H1 H2. unfold h_proj_eq_with_var. cbn [h_convert_var_to_hss].
+  fst (h_proj_eq_with_var_prefix F true fresh1 fresh2 m n h var) (buf var) i = h (buf var) i.
+Proof. intros H1 H2. unfold h_proj_eq_with_var_prefix. cbn [h_convert_var_to_hss].
   rewrite h_spread_other.
   - apply alloc_other. now apply not_eq_sym.
   - now apply not_eq_sym.
   - intros r Hr. rewrite (hss_views_buf _ m n r Hr). exact H1. Qed.
 
-(* the fixed code is pure under both flags *)
-Theorem proj_eq_with_var_fixed_pure flag fresh1 fresh2 fresh3 m n (h : heap) var i :
-  fresh1 <> buf var -> fresh2 <> buf var -> fresh3 <> buf var ->
-  fst (h_proj_eq_with_var_fixed F flag fresh1 fresh2 fresh3 m n h var) (buf var) i = h (buf var) i.
-Proof. intros H1 H2 H3. unfold h_proj_eq_with_var_fixed.
+(* ------------------------------------------------------------------ the returned VALUE of the repaired code *)
+(* windows [x*N, x*N+N) of different x are disjoint *)
+Lemma win_disjoint N x y j j' : x <> y -> (j < N)%nat -> (j' < N)%nat -> (x * N + j <> y * N + j')%nat.
+Proof. intros Hxy Hj Hj' E. destruct (Nat.lt_gt_cases x y) as [Hc _]. destruct (Hc Hxy) as [L|L].
+  - pose proof (Nat.mul_le_mono_r (S x) y N L) as M. rewrite Nat.mul_succ_l in M. lia.
+  - pose proof (Nat.mul_le_mono_r (S y) x N L) as M. rewrite Nat.mul_succ_l in M. lia. Qed.
+Lemma row_lt_sq a b n : (a < n)%nat -> (b < n)%nat -> (a * n + b < n * n)%nat.
+Proof. intros Ha Hb. pose proof (Nat.mul_le_mono_r (S a) n n Ha) as M. rewrite Nat.mul_succ_l in M. lia. Qed.
+Lemma le_sq n : (n <= n * n)%nat.
+Proof. destruct n as [|k]; [lia|]. pose proof (Nat.mul_le_mono_r 1 (S k) (S k) ltac:(lia)) as M. lia. Qed.
+
+Lemma nth_views base m n x d : (x < m)%nat ->
+  nth x (hss_views base m n) d = {| buf := buf base; off := (off base + x * (n * n))%nat |}.
+Proof. intros Hx. unfold hss_views. set (f := fun y => {| buf := buf base; off := (off base + y * (n * n))%nat |}).
+  rewrite (nth_indep _ d (f 0%nat)) by (now rewrite map_length, seq_length).
+  rewrite (map_nth f). now rewrite seq_nth by exact Hx. Qed.
+Lemma views_length base m n : length (hss_views base m n) = m.
+Proof. unfold hss_views. now rewrite map_length, seq_length. Qed.
+
+(* sum over a list of views = sumn *)
+Lemma fold_right_views (f : aref -> F) (g : nat -> aref) m : forall acc,
+  fold_right (fun r a => f r + a) acc (map g (seq 0 m)) = sumn m (fun y => f (g y)) + acc.
+Proof. induction m as [|m IH]; intros acc; [cbn; ring|].
+  rewrite seq_S, map_app, fold_right_app. cbn [map fold_right sumn Nat.add]. rewrite IH. ring. Qed.
+
+(* in-place subtraction through a list of views: an index outside every window is untouched *)
+Lemma fold_isub_miss len (g : nat -> F) (rs : list aref) : forall (h : heap) b i,
+  (forall r, In r rs -> buf r = b -> (i < off r)%nat \/ (off r + len <= i)%nat) ->
+  fold_left (fun hh r => isub F hh r len g) rs h b i = h b i.
+Proof. induction rs as [|r rs IH]; intros h b i Hrs; [reflexivity|]. cbn [fold_left].
+  rewrite IH by (intros r' Hr' Eb; apply Hrs; [now right|exact Eb]).
+  unfold isub. destruct (Nat.eqb_spec b (buf r)) as [Eb|]; [|reflexivity].
+  destruct (Hrs r (or_introl eq_refl) (eq_sym Eb)) as [L|L].
+  - destruct (Nat.leb_spec (off r) i); [lia|reflexivity].
+  - destruct (Nat.ltb_spec i (off r + len)); [lia|]. now rewrite andb_false_r. Qed.
+(* ... and an index inside exactly one window is decremented once *)
+Lemma isub_hit (h : heap) r len g j : (j < len)%nat -> isub F h r len g (buf r) (off r + j)%nat = h (buf r) (off r + j)%nat - g j.
+Proof. intros Hj. unfold isub. rewrite Nat.eqb_refl.
+  destruct (Nat.leb_spec (off r) (off r + j)); [|lia]. destruct (Nat.ltb_spec (off r + j) (off r + len)); [|lia].
+  cbn [andb]. now replace (off r + j - off r)%nat with j by lia. Qed.
+Lemma fold_isub_hit len (g : nat -> F) (l1 l2 : list aref) r (h : heap) j :
+  (j < len)%nat ->
+  (forall r', In r' (l1 ++ l2) -> buf r' = buf r -> (off r + j < off r')%nat \/ (off r' + len <= off r + j)%nat) ->
+  fold_left (fun hh r => isub F hh r len g) (l1 ++ r :: l2) h (buf r) (off r + j)%nat = h (buf r) (off r + j)%nat - g j.
+Proof. intros Hj Hm. rewrite fold_left_app. cbn [fold_left].
+  rewrite fold_isub_miss by (intros r' Hr' Eb; apply Hm; [apply in_or_app; now right|exact Eb]).
+  rewrite isub_hit by exact Hj.
+  now rewrite fold_isub_miss by (intros r' Hr' Eb; apply Hm; [apply in_or_app; now left|exact Eb]). Qed.
+
+Definition vw (B : nat) (n x : nat) : aref := {| buf := B; off := (0 + x * (n * n))%nat |}.
+Lemma views_split B m n x : (x < m)%nat ->
+  hss_views {| buf := B; off := 0 |} m n = map (vw B n) (seq 0 x) ++ vw B n x :: map (vw B n) (seq (S x) (m - S x)).
+Proof. intros Hx. unfold hss_views. cbn [buf off]. fold (vw B n).
+  replace m with (x + S (m - S x))%nat at 1 by lia. rewrite seq_app, map_app. cbn [seq map Nat.add]. reflexivity. Qed.
+Lemma in_views_other B n x r l2 : In r (map (vw B n) (seq 0 x) ++ map (vw B n) (seq (S x) l2)) ->
+  exists y, y <> x /\ r = vw B n y.
+Proof. intros H. apply in_app_or in H. destruct H as [H|H]; apply in_map_iff in H; destruct H as (y & <- & Hy); apply in_seq in Hy;
+  exists y; (split; [lia|reflexivity]). Qed.
+
+(* reading the heap after `for hs in hss: hs[0] -= g` where hss are the m windows of buffer B *)
+Lemma spread_read B m n (g : nat -> F) (h : heap) x a b : (0 < n)%nat -> (x < m)%nat -> (a < n)%nat -> (b < n)%nat ->
+  fold_left (fun hh r => isub F hh r n g) (hss_views {| buf := B; off := 0 |} m n) h B (0 + x * (n * n) + (a * n + b))%nat
+  = if Nat.eqb a 0 then h B (0 + x * (n * n) + (a * n + b))%nat - g b else h B (0 + x * (n * n) + (a * n + b))%nat.
+Proof. intros Hn Hx Ha Hb. pose proof (le_sq n) as Hsq. pose proof (row_lt_sq a b n Ha Hb) as Hab.
+  destruct (Nat.eqb_spec a 0) as [->|Ha0].
+  - rewrite (views_split B m n x Hx). cbn [Nat.mul Nat.add].
+    change (x * (n * n) + b)%nat with (off (vw B n x) + b)%nat. change B with (buf (vw B n x)) at 3 4.
+    apply fold_isub_hit; [exact Hb|]. intros r' Hr' _.
+    destruct (in_views_other B n x r' _ Hr') as (y & Hy & ->). cbn [vw off Nat.add].
+    pose proof (win_disjoint (n * n) x y b 0 (not_eq_sym Hy)) as D1.
+    destruct (Nat.lt_gt_cases y x) as [Hc _]. destruct (Hc Hy) as [L|L].
+    + right. pose proof (Nat.mul_le_mono_r (S y) x (n * n) L) as M. rewrite Nat.mul_succ_l in M. lia.
+    + left. pose proof (Nat.mul_le_mono_r (S x) y (n * n) L) as M. rewrite Nat.mul_succ_l in M. lia.
+  - apply fold_isub_miss. intros r Hr _. apply in_map_iff in Hr. destruct Hr as (y & <- & Hy). cbn [buf off Nat.add].
+    assert (Hge : (n <= a * n)%nat) by (pose proof (Nat.mul_le_mono_r 1 a n ltac:(lia)); lia).
+    destruct (Nat.lt_trichotomy y x) as [L|[->|L]].
+    + right. pose proof (Nat.mul_le_mono_r (S y) x (n * n) L) as M. rewrite Nat.mul_succ_l in M. lia.
+    + right. lia.
+    + left. pose proof (Nat.mul_le_mono_r (S x) y (n * n) L) as M. rewrite Nat.mul_succ_l in M. lia. Qed.
+
+(* what convert_var_to_hss lets the code read: the hss of the functional model *)
+Lemma convert_reads flag fresh1 m n (h : heap) var h1 hss y a b : (y < m)%nat ->
+  h_convert_var_to_hss F flag fresh1 m n h var = (h1, hss) ->
+  read_hss F n h1 hss y a b = mp_var_to_hss F flag m n (rd F h var) y a b.
+Proof. intros Hy E. unfold read_hss, mp_var_to_hss, mp_unstack.
+  destruct flag; unfold h_convert_var_to_hss in E; injection E as <- <-; rewrite nth_views by exact Hy; unfold rd at 1; cbn [buf off].
+  - rewrite alloc_same. now replace (0 + y * (n * n) + (a * n + b))%nat with (y * (n * n) + a * n + b)%nat by lia.
+  - cbn [mp_var_to_stacked]. unfold rd. f_equal. lia. Qed.
+
+(* what the deep copy holds: the same matrices, in a fresh buffer *)
+Lemma deepcopy_reads fresh3 m n (h1 : heap) hss y a b : (0 < n)%nat -> (y < m)%nat -> (a < n)%nat -> (b < n)%nat ->
+  fst (h_deepcopy F fresh3 m n h1 hss) fresh3 (0 + y * (n * n) + (a * n + b))%nat = read_hss F n h1 hss y a b.
+Proof. intros Hn Hy Ha Hb. pose proof (row_lt_sq a b n Ha Hb) as Hab. unfold h_deepcopy, read_hss. cbn [fst]. rewrite alloc_same.
+  assert (Hnn : (n * n <> 0)%nat) by (pose proof (le_sq n); lia).
+  replace ((0 + y * (n * n) + (a * n + b)) / (n * n))%nat with y.
+  2:{ apply (Nat.div_unique _ (n * n) y (a * n + b)); [exact Hab|lia]. }
+  replace ((0 + y * (n * n) + (a * n + b)) mod (n * n))%nat with (a * n + b)%nat.
+  2:{ apply (Nat.mod_unique _ (n * n) y (a * n + b)); [exact Hab|lia]. }
+  reflexivity. Qed.
+
+(* entries of the flat outputs only read the matrices inside their bounds *)
+Lemma mp_stack_ext n (H W : nat -> @mat F) m k : (0 < n)%nat -> (k < m * (n * n))%nat ->
+  (forall x a b, (x < m)%nat -> (a < n)%nat -> (b < n)%nat -> H x a b = W x a b) -> mp_stack F n H k = mp_stack F n W k.
+Proof. intros Hn Hk E. unfold mp_stack. assert (Hnn : (n * n <> 0)%nat) by (pose proof (le_sq n); lia). apply E.
+  - apply Nat.div_lt_upper_bound; [exact Hnn|lia].
+  - apply Nat.div_lt_upper_bound; [lia|]. apply Nat.mod_upper_bound. exact Hnn.
+  - apply Nat.mod_upper_bound. lia. Qed.
+Lemma mp_hss_to_var_ext flag n (H W : nat -> @mat F) m k : (0 < n)%nat -> (k < mp_var_len flag m n)%nat ->
+  (forall x a b, (x < m)%nat -> (a < n)%nat -> (b < n)%nat -> H x a b = W x a b) ->
+  mp_hss_to_var F flag m n H k = mp_hss_to_var F flag m n W k.
+Proof. intros Hn Hk E. destruct flag; cbn [mp_hss_to_var mp_var_len] in *.
+  - unfold vdelete. destruct (Nat.ltb_spec k ((m - 1) * (n * n))); apply (mp_stack_ext n H W m); try exact Hn; try exact E; lia.
+  - apply (mp_stack_ext n H W m); assumption. Qed.
+
+(* the array returned by the repaired code is the functional model of the variable-level projection:
+   for every heap, every var (any buffer, any offset), both flags, all m, n > 0 *)
+Theorem proj_eq_with_var_value flag fresh1 fresh2 fresh3 m n (h : heap) var k :
+  (0 < m)%nat -> (0 < n)%nat -> (k < mp_var_len flag m n)%nat ->
+  let '(h', out) := h_proj_eq_with_var F flag fresh1 fresh2 fresh3 m n h var in
+  rd F h' out k = mp_proj_eq_var F flag m n (rd F h var) k.
+Proof. intros Hm Hn Hk. unfold h_proj_eq_with_var.
   destruct (h_convert_var_to_hss F flag fresh1 m n h var) as [h1 hss] eqn:E.
-  rewrite h_spread_other.
-  - rewrite alloc_other by now apply not_eq_sym.
-    destruct flag; cbn [h_convert_var_to_hss] in E; inversion E; subst; [apply alloc_other; now apply not_eq_sym|reflexivity].
-  - now apply not_eq_sym.
-  - intros r Hr. rewrite (hss_views_buf _ m n r Hr). exact H3. Qed.
+  pose proof (fun y a b Hy => convert_reads flag fresh1 m n h var h1 hss y a b Hy E) as CR.
+  pose proof (fun y a b => deepcopy_reads fresh3 m n h1 hss y a b Hn) as DR.
+  unfold h_deepcopy in *. cbn [fst] in DR. set (h1' := alloc F h1 fresh3 _) in *.
+  unfold h_spread. unfold rd at 1. cbn [buf off Nat.add]. rewrite alloc_same. unfold mp_proj_eq_var.
+  apply (mp_hss_to_var_ext flag n _ _ m k Hn Hk). intros x a b Hx Ha Hb.
+  unfold read_hss at 1. rewrite nth_views by exact Hx. unfold rd at 1. cbn [buf off].
+  rewrite views_length. rewrite (spread_read fresh3 m n _ h1' x a b Hn Hx Ha Hb).
+  rewrite (DR x a b Hx Ha Hb), (CR x a b Hx). unfold mp_proj_eq.
+  destruct (Nat.eqb_spec a 0) as [->|_]; [|reflexivity].
+  f_equal. f_equal. unfold mp_defect. f_equal.
+  unfold hss_views. rewrite (fold_right_views (fun r => rd F h1' r b)).
+  assert (S0 : sumn m (fun y => rd F h1' {| buf := buf {| buf := fresh3; off := 0 |}; off := (off {| buf := fresh3; off := 0 |} + y * (n * n))%nat |} b)
+               = sumn m (fun y => mp_var_to_hss F flag m n (rd F h var) y 0%nat b)).
+  { apply sumn_ext. intros y Hy. unfold rd. cbn [buf off].
+    pose proof (DR y 0%nat b Hy Hn Hb) as D. cbn [Nat.mul Nat.add] in D. cbn [Nat.add]. rewrite D. now apply CR. }
+  rewrite S0. ring. Qed.
 End C04HeapProofs.
 
-(* flag = False, as coded: the argument IS modified.  Witness over Qc: d = 2 (n = 4), m = 2, var = zeros(32) in buffer 0;
-   after the call var[0] = 1/2. *)
+(* flag = False, AS CODED BEFORE repair mprocess-proj-eq-var-mutates-argument: the argument IS modified.
+   Witness over Qc: d = 2 (n = 4), m = 2, var = zeros(32) in buffer 0; after the call var[0] = 1/2. *)
 Definition zero_heap : heap Qc_OF := fun _ _ => 0%Qc.
 Definition var0 : aref := {| buf := 0; off := 0 |}.
-Theorem proj_eq_with_var_false_mutates :
+Theorem proj_eq_with_var_prefix_false_mutates :
   exists (m n fresh1 fresh2 : nat) (h : heap Qc_OF) (var : aref) (i : nat),
     fresh1 <> buf var /\ fresh2 <> buf var /\
-    fst (h_proj_eq_with_var Qc_OF false fresh1 fresh2 m n h var) (buf var) i <> h (buf var) i.
+    fst (h_proj_eq_with_var_prefix Qc_OF false fresh1 fresh2 m n h var) (buf var) i <> h (buf var) i.
 Proof. exists 2%nat, 4%nat, 1%nat, 2%nat, zero_heap, var0, 0%nat. split; [discriminate|]. split; [discriminate|].
   vm_compute. discriminate. Qed.
